@@ -17,9 +17,9 @@
    [divide_pinned] is the function as it was before commit 8a80803
    ("fix: HSplit/VSplit hung or raised ValueError with zero-weight
    children"); the _pinned theorems characterise exactly where it hung. *)
-From Coq Require Import ZArith List Bool.
+From Coq Require Import ZArith List Bool Reals.
 From PTK Require Import Lib.Sx Model.C12_Divide Gen.C12_Huge
-     Proofs.C12_Safety Proofs.C12_Gen Proofs.C12_Termination Proofs.C12_Fixed.
+     Proofs.C12_Safety Proofs.C12_Gen Proofs.C12_Termination Proofs.C12_Fixed Proofs.C12_Cache Proofs.C12_Float.
 Import ListNotations.
 Open Scope Z_scope.
 
@@ -52,6 +52,19 @@ Proof.
   exists it, g'. split; [exact Hn|]. split; [exact I'|]. exists q. auto.
 Qed.
 Print Assumptions C12_generator_next_total.
+
+(* take_using_weights tests `already_taken[k] < i * weight / float(max_weight)`
+   in binary64 arithmetic ([rnd64] = round to nearest even, 53 bits, emin
+   -1074; the int/float division rounds once; int < float is exact).  Below
+   2^53 that is the exact integer comparison the model uses.  (Flocq + Coq
+   reals: this is the only theorem resting on the standard axioms of the
+   real numbers.) *)
+Theorem C12_float_compare_exact : forall g k,
+  (0 <= g_i g * nth k (g_weights g) 0 < 2 ^ 53)%Z -> (0 < g_maxw g < 2 ^ 53)%Z ->
+  ((IZR (nth k (g_taken g) 0%Z) < rnd64 (IZR (g_i g * nth k (g_weights g) 0%Z) / IZR (g_maxw g)))%R
+   <-> eligible g k = true).
+Proof. exact eligible_is_float_test. Qed.
+Print Assumptions C12_float_compare_exact.
 
 (* 'too small' exactly when the minimums do not fit (any fuel, any weights). *)
 Theorem C12_too_small : forall fuel done ds avail,
@@ -152,6 +165,92 @@ Theorem C12_draw : forall orient cs nall l start avail,
    then [(1, start + zsum l, start + avail - (start + zsum l))] else []).
 Proof. exact draw_sizes. Qed.
 Print Assumptions C12_draw.
+
+(* ------------------------------------------------------------------ *)
+(* The cached _all_children (SimpleCache(maxsize=1) keyed by
+   tuple(self.children)): children are ids, [entries align ids] is the list
+   the getter builds for the children [ids], [cache_get] one lookup,
+   [cache_after align None history] the cache after any history of renders
+   with any children lists (= any in-place edits in between). *)
+
+(* Whatever happened before, a lookup returns exactly what a recomputation
+   for the children listed NOW returns ... *)
+Theorem C12_cache_transparent : forall align history ids,
+  fst (cache_get align (cache_after align None history) ids) = entries align ids.
+Proof. exact cache_transparent. Qed.
+Print Assumptions C12_cache_transparent.
+
+(* ... which holds exactly the listed children, in their listed order, and
+   whose dimensions are _all_children of the listed children. *)
+Theorem C12_cached_children : forall pool pad align ids,
+  children_of (entries align ids) = ids /\
+  map (entry_dim pool pad) (entries align ids) = all_children align pad (map (lookup pool) ids).
+Proof. intros. split; [apply entries_children|apply entries_all_children]. Qed.
+Print Assumptions C12_cached_children.
+
+(* A sequence of renders of one split object with its children list edited
+   in between gives, at every step, the render of a fresh split with the
+   current children. *)
+Theorem C12_renders_ignore_cache : forall fuel orient done align pad pool avail start steps,
+  render_steps fuel orient done align pad pool avail start None steps =
+  map (render_one fuel orient done align pad pool avail start) steps.
+Proof. intros. apply render_steps_nocache. exact I. Qed.
+Print Assumptions C12_renders_ignore_cache.
+
+(* ------------------------------------------------------------------ *)
+(* Nested splits: what a split reports to its parent, Window dimensions. *)
+
+(* max_layout_dimensions of well-formed requirements never raises and is
+   well-formed (HSplit.preferred_width, VSplit.preferred_height) *)
+Theorem C12_max_layout_valid : forall ds, Forall valid ds ->
+  exists d, max_layout_dimensions ds = COk d /\ valid d.
+Proof. exact max_layout_valid. Qed.
+Print Assumptions C12_max_layout_valid.
+
+(* preferred_width / preferred_height of HSplit and VSplit (width=None,
+   height=None) never raise and report a well-formed requirement *)
+Theorem C12_split_report_valid : forall fuel orient axis align pad cs width r,
+  valid pad -> Forall valid (map fst cs) -> Forall valid (map snd cs) ->
+  split_report fuel orient axis align pad cs width = inl r ->
+  exists d, r = COk d /\ valid d.
+Proof. exact split_report_valid. Qed.
+Print Assumptions C12_split_report_valid.
+
+(* Nested division along the same axis stays within every leaf's bounds:
+   if the k-th requirement of the outer split is what an inner split reports
+   (the sum over its own children), the size the outer division gives it is
+   within the reported min..max and the inner division, run with that size,
+   is never 'too small' and keeps each of ITS children within min..max. *)
+Theorem C12_nested_same_axis : forall fuel fuel' done done' outer inner k avail l,
+  Forall valid outer -> Forall valid inner -> inner <> [] -> (k < length outer)%nat ->
+  sum_layout_dimensions inner = COk (nth k outer flex) ->
+  (divide_fuel outer avail <= fuel)%nat -> divide fuel done outer avail = Sizes l ->
+  (divide_fuel inner (nth k l 0%Z) <= fuel')%nat ->
+  dmin (nth k outer flex) <= nth k l 0 <= dmax (nth k outer flex) /\
+  exists l', divide fuel' done' inner (nth k l 0) = Sizes l' /\
+             length l' = length inner /\ le_all (mins inner) l' /\ le_all l' (maxs inner) /\
+             zsum l' <= nth k l 0.
+Proof. exact nested_same_axis. Qed.
+Print Assumptions C12_nested_same_axis.
+
+(* Window._merge_dimensions (what a Window reports): well-formed whenever it
+   returns; and it returns whenever the Window's own Dimension is
+   constructible and the content reports a size >= 0, keeping the Window's
+   min and weight, never widening its max (max unchanged without
+   dont_extend). *)
+Theorem C12_merge_valid : forall mn mx w p cp de d,
+  merge_dimensions mn mx w p cp de = COk d -> valid d.
+Proof. exact merge_valid. Qed.
+Print Assumptions C12_merge_valid.
+
+Theorem C12_merge_total : forall mn mx w p cp de d0,
+  dimension mn mx w p = COk d0 ->
+  (forall v, cp = Some v -> 0 <= v) ->
+  exists d, merge_dimensions mn mx w p cp de = COk d /\
+            dmin d = dmin d0 /\ dweight d = dweight d0 /\ dmax d <= dmax d0 /\
+            (de = false -> dmax d = dmax d0).
+Proof. exact merge_total. Qed.
+Print Assumptions C12_merge_total.
 
 (* ------------------------------------------------------------------ *)
 (* The function before the fix (divide_pinned): where exactly it hung. *)
